@@ -326,6 +326,7 @@ def extra_for_C01(rep, tier):
     groups, cat_states = tlc_catalogue(consts, work)
     # one tuple argument against the same values passed separately; a positional string equal to a keyword name
     for over in (dict(SigIds={4, 5, 28}, PVals={1, 2, 10}, KwNames={'z'}, MAXP=2, MAXK=1),
+                 dict(SigIds={4, 5}, PVals={1, 7}, KwNames={'z'}, MAXP=1, MAXK=0),
                  dict(SigIds={28, 29}, PVals={1, 6}, KwNames={'x', 'z'}, MAXP=2, MAXK=1),
                  dict(SigIds={25, 28}, PVals={1, 2}, KwNames={'self', 'func', 'ignored'}, MAXP=1, MAXK=1)):
         gx, stx = tlc_catalogue(dict(base_consts(tier, {0}), Deviations=set(), **over), work)
@@ -363,7 +364,9 @@ def check_C10(tier):
     return check_generic('C10', tier, {0}, pvals={1, 2, 3, 4, 5, 7} if tier == 'thorough' else {1, 2, 3, 7}, po={49, 73, 122},
                          extras=[dict(SigIds={28, 29}, PVals={1, 6}, KwNames={'x', 'z'}, MAXP=2, MAXK=1),
                                  # one tuple argument against the same values as separate arguments: f((1, 2)) vs f(1, 2)
-                                 dict(SigIds={4, 5, 28}, PVals={1, 2, 10}, KwNames={'z'}, MAXP=2, MAXK=1)])
+                                 dict(SigIds={4, 5, 28}, PVals={1, 2, 10}, KwNames={'z'}, MAXP=2, MAXK=1),
+                                 # a lone positional argument (keyed bare by the flat keymaps): 1 against '1', under every flat keymap
+                                 dict(SigIds={4, 5}, PVals={1, 7}, KwNames={'z'}, MAXP=1, MAXK=0)])
 
 
 def check_C11(tier):
